@@ -6,9 +6,12 @@ package main
 
 import (
 	"bytes"
+	"math"
+	"math/big"
 	"regexp"
 	"sort"
 	"strconv"
+	"time"
 
 	"github.com/ozontech/file.d/xtime"
 	insaneJSON "github.com/ozontech/insane-json"
@@ -159,14 +162,14 @@ type tables struct {
 	re    map[[2]string]bool
 	reok  map[string]bool
 	any   map[[2]string]bool
-	tm    map[[2]string]*int64
+	tm    map[[2]string]*big.Int
 	it    map[string]int64
 	reC   map[string]*regexp.Regexp
 }
 
 func newTables() *tables {
 	return &tables{lower: map[string]string{}, re: map[[2]string]bool{}, reok: map[string]bool{}, any: map[[2]string]bool{},
-		tm: map[[2]string]*int64{}, it: map[string]int64{}, reC: map[string]*regexp.Regexp{}}
+		tm: map[[2]string]*big.Int{}, it: map[string]int64{}, reC: map[string]*regexp.Regexp{}}
 }
 
 func (t *tables) addLower(b []byte) []byte {
@@ -270,8 +273,7 @@ func (t *tables) addTree(n *rnode, ev hx.Sx) {
 				}
 				key := [2]string{x.format, jText(v)}
 				if tv, err := xtime.ParseTime(layout, jText(v)); err == nil {
-					ns := tv.UnixNano()
-					t.tm[key] = &ns
+					t.tm[key] = unixNanoExact(tv)
 				} else {
 					t.tm[key] = nil
 				}
@@ -322,7 +324,7 @@ func (t *tables) sx() hx.Sx {
 	sort.Slice(tk, func(i, j int) bool { return tk[i][0]+"\x00"+tk[i][1] < tk[j][0]+"\x00"+tk[j][1] })
 	for _, k := range tk {
 		if v := t.tm[k]; v != nil {
-			tm = append(tm, hx.L(hx.S(k[0]), hx.S(k[1]), hx.L(hx.Z(*v))))
+			tm = append(tm, hx.L(hx.S(k[0]), hx.S(k[1]), hx.L(hx.MustParse(v.String()))))
 		} else {
 			tm = append(tm, hx.L(hx.S(k[0]), hx.S(k[1]), hx.I(0)))
 		}
@@ -340,6 +342,8 @@ type flags struct {
 	contHit  bool // a field op accepts the placeholder byte of an array/object field
 	escState bool // byte_len_cmp over a container that holds an escape sequence
 	resolves bool // some leaf's field exists in the event
+	tsRange  bool // ts_cmp over a field whose instant is not representable as int64 nanoseconds (before 1677-09-21 / after 2262-04-11)
+	tsSat    bool // ... and the constant it is compared with is exactly MinInt64 or MaxInt64 nanoseconds
 }
 
 func lenKept(b []byte) bool { return len(bytes.ToLower(b)) == len(b) }
@@ -387,8 +391,35 @@ func classify(n *rnode, ev hx.Sx, f *flags) {
 					f.escState = true
 				}
 			}
+		case kTs:
+			if v, ok := jDig(ev, x.path); ok && jKind(v) == 3 {
+				layout, err := xtime.ParseFormatName(x.format)
+				if err != nil {
+					layout = x.format
+				}
+				if tv, err := xtime.ParseTime(layout, jText(v)); err == nil && !unixNanoExact(tv).IsInt64() {
+					f.tsRange = true
+					if x.mode == 0 {
+						rhs := new(big.Int).Add(big.NewInt(x.a), big.NewInt(x.shift))
+						if !rhs.IsInt64() || rhs.Int64() == math.MinInt64 || rhs.Int64() == math.MaxInt64 {
+							f.tsSat = true
+						}
+					}
+				}
+			}
 		}
 	})
+}
+
+// the instant as a count of nanoseconds since the Unix epoch, exactly (time.Time.UnixNano is this number
+// whenever it fits an int64 and is undefined otherwise)
+func unixNanoExact(tv time.Time) *big.Int {
+	ns := new(big.Int).Mul(big.NewInt(tv.Unix()), big.NewInt(1e9))
+	ns.Add(ns, big.NewInt(int64(tv.Nanosecond())))
+	if ns.IsInt64() && ns.Int64() != tv.UnixNano() {
+		panic("c14: time.Time.UnixNano differs from Unix()*1e9+Nanosecond() on a representable instant")
+	}
+	return ns
 }
 
 // would this field op accept the one-byte placeholder "\x00"? (computed from the values only)
@@ -426,6 +457,8 @@ func route(base string, f flags) string {
 		return "container-placeholder"
 	case f.escState:
 		return "escaped-nested-string"
+	case f.tsRange:
+		return "ts-out-of-range"
 	}
 	return base
 }
